@@ -7,6 +7,7 @@ package specutil
 import (
 	"errors"
 	"fmt"
+	"math/big"
 	"slices"
 	"strconv"
 	"strings"
@@ -1067,6 +1068,11 @@ func ColumnDefault(c *schema.Column) (cty.Value, error) {
 			// or do not fit in 64 bits are kept as they are, like the literals above.
 			raw := schemahcl.RawExprValue(&schemahcl.RawExpr{X: x.V})
 			if strings.ContainsAny(x.V, "eEnN") {
+				return raw, nil
+			}
+			// The same holds for numbers that are not written in their canonical
+			// form (e.g. 0.0, 1.50, .5 or +2), as reading them back changes them.
+			if f, _, err := big.ParseFloat(x.V, 10, 512, big.ToNearestEven); err != nil || f.Text('f', -1) != x.V {
 				return raw, nil
 			}
 			if strings.Contains(x.V, ".") {
